@@ -395,6 +395,67 @@ theorem gen_collective_key_switch (n : Nat) (sch : Scheme) (t : Nat) (ntt : Bool
     simp only [genmp_ok_bind, genmp_reveal_finish] at hrun ⊢
     rw [hrun]; rfl
 
+/-- COLLECTIVE PUBLIC-KEY SWITCH through the generated functions: party i draws (u_i, e0_i, e1_i), the message is the PAIR (h0_i, h1_i);
+    any party that has received all other pairs ends with (c0 + Σh0_i, Σh1_i), whose phase under the receiver's secret sk' is the old
+    phase plus u·(p0' + p1'·sk') + E0 + E1·sk' -/
+theorem gen_collective_pks (n : Nat) (sch : Scheme) (t : Nat) (ntt : Bool) (s u e0 e1 : Nat → A) (c0 c1 p0 p1 sk' : A) (pa : A → A → R A) :
+    ∃ h : Nat → A × A,
+      (∀ i, GenMp.public_key_switch Ops.ring sch t n i 2 ntt (s i) c1 p0 p1 [(.ternary, u i), (.cbd, e0 i), (.cbd, e1 i)]
+              = .ok (Reveal.new n i (h i).1, Reveal.new n i (h i).2, [])) ∧
+      ∀ id, id < n → ∀ d0 d1 : List (Nat × A),
+        (∀ x ∈ d0, x.1 < n ∧ x.1 ≠ id ∧ x.2 = (h x.1).1) → (∀ j, j < n → j ≠ id → j ∈ d0.map Prod.fst) →
+        (∀ x ∈ d1, x.1 < n ∧ x.1 ≠ id ∧ x.2 = (h x.1).2) → (∀ j, j < n → j ≠ id → j ∈ d1.map Prod.fst) →
+        ∃ c0' c1', (do let q0 ← genRecvAll (Reveal.new n id (h id).1) d0
+                       let q1 ← genRecvAll (Reveal.new n id (h id).2) d1
+                       GenMp.public_key_switch_finish Ops.ring c0 c1 pa q0 q1) = .ok (c0', c1') ∧
+          c0' + c1' * sk' = (c0 + c1 * ∑ i ∈ range n, s i) + (∑ i ∈ range n, u i) * (p0 + p1 * sk')
+              + c18_nz sch t (∑ i ∈ range n, e0 i) + c18_nz sch t (∑ i ∈ range n, e1 i) * sk' := by
+  obtain ⟨h, hh, hsum⟩ := pks_sum n sch t ntt s u e0 e1 c0 c1 p0 p1 sk'
+  refine ⟨h, fun i => by rw [genmp_public_key_switch, hh i]; rfl, fun id hid d0 d1 hr0 ha0 hr1 ha1 =>
+    ⟨c0 + ∑ i ∈ range n, (h i).1, ∑ i ∈ range n, (h i).2, ?_, hsum⟩⟩
+  have hrun0 := finish_sum n id hid (fun i => (h i).1) d0 hr0 ha0
+  have hrun1 := finish_sum n id hid (fun i => (h i).2) d1 hr1 ha1
+  rw [← genmp_run Ops.ring pa] at hrun0 hrun1
+  simp only [genmp_public_key_switch_finish]
+  cases hq0 : genRecvAll (Reveal.new n id (h id).1) d0 with
+  | error e => rw [hq0] at hrun0; cases hrun0
+  | ok q0 =>
+    cases hq1 : genRecvAll (Reveal.new n id (h id).2) d1 with
+    | error e => rw [hq1] at hrun1; cases hrun1
+    | ok q1 =>
+      rw [hq0] at hrun0; rw [hq1] at hrun1
+      simp only [genmp_ok_bind, genmp_reveal_finish] at hrun0 hrun1 ⊢
+      rw [hrun0, hrun1]; rfl
+
+/-- COLLECTIVE PUBLIC KEY through the generated `generate_public_key` / `finish` (the generator call is an opaque step whose reading
+    k0_i = `pkShare (s_i, a, e_i)`, k1 = a is the hypothesis `hk`): the object broadcasts k0_i, and every party that has received all
+    other shares ends with the key (Σ k0_i, a) = the single-party key for the secret Σ s_i with noise Σ e_i -/
+theorem gen_collective_pk (n : Nat) (sch : Scheme) (t : Nat) (s e : Nat → A) (a : A) (k0 : Nat → A) (pa : A → A → R A)
+    (hk : ∀ i, pkShare Ops.ring sch t (s i) a (e i) = .ok (k0 i)) :
+    ∀ id, id < n → ∀ d : List (Nat × A),
+      (∀ x ∈ d, x.1 < n ∧ x.1 ≠ id ∧ x.2 = GenMp.reveal_send (GenMp.generate_public_key n x.1 (k0 x.1) a).1) →
+      (∀ j, j < n → j ≠ id → j ∈ d.map Prod.fst) →
+      ∃ p0, (do let q ← genRecvAll (GenMp.generate_public_key n id (k0 id) a).1 d
+                GenMp.public_key_finish Ops.ring (GenMp.generate_public_key n id (k0 id) a).2.1 (GenMp.generate_public_key n id (k0 id) a).2.2 pa q)
+              = .ok (p0, a) ∧
+        pkShare Ops.ring sch t (∑ i ∈ range n, s i) a (∑ i ∈ range n, e i) = .ok p0 ∧
+        p0 + a * (∑ i ∈ range n, s i) = - c18_nz sch t (∑ i ∈ range n, e i) := by
+  intro id hid d hr hall
+  obtain ⟨p0, h1, h2, h3⟩ := collective_pk n sch t s e a
+  have hp : ∀ i, p0 i = k0 i := fun i => by have := h1 i; rw [hk i] at this; exact (Except.ok.inj this).symm
+  refine ⟨∑ i ∈ range n, p0 i, ?_, h2, h3⟩
+  have hrun := finish_sum n id hid k0 d hr hall
+  rw [← genmp_run Ops.ring pa] at hrun
+  simp only [genmp_public_key_finish, GenMp.generate_public_key]
+  have hnew : (⟨id, k0 id, List.replicate n none⟩ : Reveal A) = Reveal.new n id (k0 id) := rfl
+  rw [hnew]
+  cases hq : genRecvAll (Reveal.new n id (k0 id)) d with
+  | error e => rw [hq] at hrun; cases hrun
+  | ok q =>
+    rw [hq] at hrun
+    simp only [genmp_ok_bind, genmp_reveal_finish] at hrun ⊢
+    rw [hrun, Finset.sum_congr rfl (fun i _ => hp i)]; rfl
+
 /-- non-vacuity of the generated-function theorems: two parties over ℤ (BFV reading: noise added as is), c = (100, 7), secrets 2 and 3,
     noises 1 and -1: both constructors succeed, party 0 after receiving party 1's message hands 100 + 7·5 + 0 = 135 to the decoder;
     without the message `finish` refuses -/
